@@ -150,7 +150,11 @@ func c08Announce(r *R) {
 					ok := sm >= 0 && pt.ArgDesc(pt.Evs[sm], 1) == "chid.Initiator" && pt.ArgDesc(pt.Evs[sm], 2) == "dyn:message.UpdateResponse(chid.ID,true)"
 					okRet := pt.RetDesc(0) == e
 					if sm >= 0 && pt.Has("-"+pt.Desc(pt.Evs[sm].Instr.(ssa.Value))+"==nil") {
-						okRet = true // send failed: its error is reported
+						// send failed: an error (the send's, a wrapping of it, or the pause signal)
+						// must still reach the transport — returning a value that may be nil lets
+						// blocks keep flowing past the limit
+						ret := pt.RetDesc(0)
+						okRet = ret == pt.Desc(pt.Evs[sm].Instr.(ssa.Value)) || ret == e || strings.HasPrefix(ret, "fmt.Errorf(") || strings.HasPrefix(ret, "errors.New(")
 					}
 					r.c.Check(ok && okRet, "C08.5", fmt.Sprintf("OnDataReceived/pause-path#%d", n), r.p.Pos(fn.Pos()), "pause announced to the initiator with Update(paused) and signalled to the transport",
 						"on the pause signal the initiator is not told with UpdateResponse(chid.ID, true) sent to chid.Initiator (or ErrPause is not passed on): "+pt.Describe())
